@@ -122,6 +122,38 @@ def precheck(pkg, sd, selected):
     return cls
 
 
+def member_keys(pkg, sd, tagcase):
+    """python twin of the member names (steering only): [(field name, key)] for the fields Go selects on sd"""
+    occ, best = c02.selectable(pkg, sd)
+    res = []
+    for name, (d, os_) in best.items():
+        o = os_[0]
+        if o[3] and o[4]:
+            continue
+        tag = ""
+        if d == 1:
+            fd = next((f for f in sd["fields"] if name in f["names"]), None)
+            if fd is not None:
+                tag = json_tag_of(fd)
+        if tag:
+            key = tag
+        elif tagcase == "pascal":
+            key = ctorgen._go_pascal(name)
+        elif tagcase == "camel":
+            key = ctorgen.to_camel(name)
+        elif tagcase == "lower":
+            key = name.lower()
+        else:
+            key = name.upper()
+        res.append((name, key))
+    return res
+
+
+def keys_collide(pkg, sd, tagcase):
+    ks = [k.lower() for _, k in member_keys(pkg, sd, tagcase)]
+    return len(set(ks)) != len(ks) or "" in ks
+
+
 def gen_packages(run, n):
     pkgs, stats = [], {"regenerated": 0, "outside_guard_kept": 0, "fatal_expected": 0}
     k = 0
@@ -144,6 +176,10 @@ def gen_packages(run, n):
         if len(names) > 2 and run.rng.random() < 0.15:
             selected.remove(run.rng.choice(names))
         classes = [precheck(pkg, sd, selected) for sd in pkg["structs"]]
+        tagcase = run.rng.choice(sorted(TAGCASES))
+        # member names that collide under case folding: encoding/json drops such fields (not modelled)
+        if any(keys_collide(pkg, sd, tagcase) for sd in pkg["structs"] if sd["name"] in selected):
+            classes.append("bad")
         if "bad" in classes or (classes.count("out") and run.rng.random() < 0.8):
             stats["regenerated"] += 1
             if k < 60 * n:
@@ -151,7 +187,7 @@ def gen_packages(run, n):
         pkg["order"] = selected                       # declaration order = dependency order (complete view)
         pkg["rounds"] = 1
         pkg["getset"] = getset
-        pkg["tagcase"] = run.rng.choice(sorted(TAGCASES))
+        pkg["tagcase"] = tagcase
         pkg["classes"] = classes
         stats["outside_guard_kept"] += 1 if "out" in classes else 0
         stats["fatal_expected"] += 1 if fatal else 0
@@ -504,8 +540,33 @@ def h_promoted_marshaler(run, shoot):
     return h
 
 
+def h_aio_stale(run, shoot):
+    """all-in-one output over a stale earlier output: the JSON code of the embedding type must equal a clean run's"""
+    def h(e):
+        w = e["witness"]
+        mod = l2.make_module(run, "witmod")
+        a, b = mod / "k_aio_a", mod / "k_aio_b"
+
+        def put(root, files):
+            l2.write_files(root, files)
+        put(a, w["files_v1"])
+        r1 = l2.run_shoot(shoot, a / "p", w["args"], timeout=20)
+        put(a, w["files_v2"])
+        r2 = l2.run_shoot(shoot, a / "p", w["args"], timeout=20)
+        put(b, w["files_v2"])
+        r3 = l2.run_shoot(shoot, b / "p", w["args"], timeout=20)
+        if r1["rc"] or r2["rc"] or r3["rc"]:
+            return "other: exit %s %s %s" % (r1["rc"], r2["rc"], r3["rc"])
+        fa, fb = a / "p" / w["file"], b / "p" / w["file"]
+        if not fa.exists() or not fb.exists():
+            return "other: %s not written" % w["file"]
+        return "correct" if fa.read_text() == fb.read_text() else "buggy"
+    return h
+
+
 def finding_handlers(run, shoot):
     return {
+        "K_aio_overlay_stale": h_aio_stale(run, shoot),
         "K_json_tag_transformed": h_tag_transformed(run, shoot),
         "K_json_getter_only_setters": h_getter_only_setters(run, shoot),
         "K_getsetmethods_leak": h_getsetmethods_leak(run, shoot),
